@@ -282,6 +282,7 @@ def _point_task(spec, repo, seed, n, forced):
     cnt['points'] += done
     out['wire'] = G.wire()
     out['ncols'] = G.n
+    out['cmag'] = max(G.cmag, G.scale, 1.0)
     return out
 
 
@@ -298,6 +299,7 @@ def near_split(G, npos):
     and the double implementation may then file it differently)."""
     t = G.q
     eps = 1e-9 * max(G.scale, G.cmag)
+    exact_above = True      # every split above this node was computed without rounding (model bounds == implementation bounds)
     while True:
         b = t.bounds
         if not (b[0][0] <= npos[0] <= b[1][0] and b[0][1] <= npos[1] <= b[1][1]):
@@ -307,7 +309,10 @@ def near_split(G, npos):
             exact = (npos[0] in (b[0][0], b[1][0])) or (npos[1] in (b[0][1], b[1][1]))
             if not exact: return True
         cx, cy = 0.5 * (b[0][0] + b[1][0]), 0.5 * (b[0][1] + b[1][1])
-        ex = (fr(b[0][0]) + fr(b[1][0])) / 2 == fr(cx) and (fr(b[0][1]) + fr(b[1][1])) / 2 == fr(cy)
+        ex = exact_above and (fr(b[0][0]) + fr(b[1][0])) / 2 == fr(cx) and (fr(b[0][1]) + fr(b[1][1])) / 2 == fr(cy)
+        if not exact_above:
+            # the model's rectangle differs from this one by rounding: a point on its border may be filed differently
+            if min(abs(npos[0] - b[0][0]), abs(npos[0] - b[1][0]), abs(npos[1] - b[0][1]), abs(npos[1] - b[1][1])) < eps: return True
         if len(t.elements) > 1:
             for e in t.elements:
                 dx, dy = abs(e.centre[0] - cx), abs(e.centre[1] - cy)
@@ -321,6 +326,7 @@ def near_split(G, npos):
             if cb[0][0] <= npos[0] <= cb[1][0] and cb[0][1] <= npos[1] <= cb[1][1]:
                 nxt = c; break
         if nxt is None: return False
+        exact_above = ex
         t = nxt
 
 
